@@ -43,7 +43,7 @@ func rulesSamCodec(c *Ctx, r *Report) {
 	s := newSymb(w)
 	rpo := rpoIndex(w)
 	calls := fmtCallsIn(w)
-	sort.SliceStable(calls, func(i, j int) bool { return rpo[calls[i].call.Block()] < rpo[calls[j].call.Block()] })
+	sort.SliceStable(calls, func(i, j int) bool { return rpo[calls[i].site.Block()] < rpo[calls[j].site.Block()] })
 	// writer column table: the first write
 	wcols := map[int]string{}
 	if len(calls) < 3 || calls[0].format == nil {
@@ -94,7 +94,7 @@ func rulesSamCodec(c *Ctx, r *Report) {
 	last := calls[len(calls)-1]
 	lastUnconditional := true
 	instrs(w, func(in ssa.Instruction) {
-		if rt, ok := in.(*ssa.Return); ok && isNilConst(retOperands(rt)[0]) && !last.call.Block().Dominates(rt.Block()) {
+		if rt, ok := in.(*ssa.Return); ok && isNilConst(retOperands(rt)[0]) && !last.site.Block().Dominates(rt.Block()) {
 			lastUnconditional = false
 		}
 	})
